@@ -526,7 +526,8 @@ func c26Step(st *c26State, op string) (string, string) {
 		case c.cc.congestionWindow > pre.congestionWindow:
 			st.o.Stat("cc:congestion-avoidance")
 		}
-		if !pre.ackLastLoss.IsZero() && c.cc.recoveryStartTime.IsZero() && c.cc.congestionWindow == 2*st.mds {
+		anyLost := !pre.ackLastLoss.IsZero() || strings.Contains(strings.Join(st.cbs, ","), "lost")
+		if anyLost && c.cc.recoveryStartTime.IsZero() && c.cc.congestionWindow == 2*st.mds {
 			st.o.Stat("cc:persistent-congestion")
 		}
 		if c.cc.congestionWindow == 2*st.mds {
